@@ -280,6 +280,8 @@ struct Rig {
     delivered: u64,
     split_reads: u64,
     fifo_oracle: bool,
+    /// oracle hits raised inside composite ops, collected after each op
+    late_oracle: Vec<(String, String)>,
 }
 
 fn set_sndbuf(fd: i32) {
@@ -328,6 +330,7 @@ impl Rig {
             delivered: 0,
             split_reads: 0,
             fifo_oracle: true,
+            late_oracle: vec![],
         }
     }
 
@@ -382,7 +385,25 @@ impl Rig {
 
     fn readable(&mut self) -> Result<usize, ChannelError> {
         self.r.handle_events(Ready::READABLE);
-        self.r.readable()
+        let res = self.r.readable();
+        // the owner is only called again on a new socket event, so a successful readable() may
+        // stop pulling only when the socket is drained (WouldBlock) or the front buffer holds a
+        // full ceiling of *pending* data; giving up earlier (consumed bytes not reclaimed)
+        // strands received bytes in the socket
+        if res.is_ok() {
+            let left = fionread(self.r.sock.as_raw_fd());
+            let data = self.r.front_buf.available_data();
+            if left > 0 && data < self.eff() {
+                self.late_oracle.push((
+                    "readable-gave-up-with-room".into(),
+                    format!(
+                        "readable() returned with {left} byte(s) still in the socket although the front buffer holds only {data} pending byte(s) (capacity {}, ceiling {})",
+                        self.r.front_buf.capacity(), self.eff()
+                    ),
+                ));
+            }
+        }
+        res
     }
 
     /// property oracle on one delivered message: it must be the next expected one
@@ -1110,8 +1131,11 @@ impl Area for ChannelArea {
             };
             run.tags.push(format!("op:{kind}"));
             run.out.push(line);
-            if let Some(g) = rig.as_ref() {
+            if let Some(g) = rig.as_mut() {
                 g.invariants(&mut run.oracle);
+                if let Some(hit) = g.late_oracle.drain(..).next() {
+                    run.oracle.push(hit);
+                }
             }
         }
         if let Some(g) = rig.as_ref() {
